@@ -901,8 +901,10 @@ def check_parse(ctx, env, fam, fam_sig, timings):
     t0 = time.time()
     exc = None
     g = None
+    script_obj = [None]
     try:
-        g = SmtLibParser(env).get_script(io.StringIO(text)).get_last_formula()
+        script_obj[0] = SmtLibParser(env).get_script(io.StringIO(text))
+        g = script_obj[0].get_last_formula()
     except BaseException as e:     # noqa
         if isinstance(e, (KeyboardInterrupt, SystemExit)):
             raise
@@ -910,6 +912,28 @@ def check_parse(ctx, env, fam, fam_sig, timings):
     finally:
         del m.create_node
     timings["parse_dag"] = time.time() - t0
+    if exc is None and script_obj[0] is not None:
+        # the script that came from the parser, written again with daggify=True: DAG-sized output
+        nn = len(abstract_graph(fam.phi, lambda k_: k_.args())[0])
+        ne = sum(len(x.args()) for x in abstract_graph(fam.phi, lambda k_: k_.args())[0])
+        bound = TEXT_PER_ITEM * (nn + ne) + 2000 + len(text)
+        out = LimitedIO(4 * bound)
+        t1 = time.time()
+        try:
+            script_obj[0].serialize(out, daggify=True)
+            wrote = out.total
+        except Runaway:
+            wrote = out.total
+        except RecursionError:
+            ctx.report_s(dict(sig, oracle="recursion", op="serialize_parsed_script"),
+                         "RecursionError writing the parsed script of %s" % fam.name, replay)
+            wrote = 0
+        timings["serialize_parsed_script"] = time.time() - t1
+        if wrote > bound:
+            ctx.report_s(dict(sig, oracle="output-size", op="serialize_parsed_script"),
+                         "script parsed from the DAG print of %s and serialized with daggify=True: more than %d "
+                         "characters for %d nodes and %d edges (the text it was parsed from has %d)" % (
+                             fam.name, min(wrote, 4 * bound), nn, ne, len(text)), replay)
     if exc is not None:
         if isinstance(exc, RecursionError):
             ctx.report_s(dict(sig, oracle="recursion"), "RecursionError re-parsing the DAG print of %s" % fam.name, replay)
@@ -1005,6 +1029,146 @@ def atom_of(env, sym):
     if ty.is_array_type():
         return m.Equals(sym, sym)
     return m.Equals(sym, sym)
+
+
+class LimitedIO(io.StringIO):
+    """an output stream that stops a writer which produces far more than the bound"""
+
+    def __init__(self, limit):
+        io.StringIO.__init__(self)
+        self.limit = limit
+        self.total = 0
+
+    def write(self, text):
+        self.total += len(text)
+        if self.total > self.limit:
+            raise Runaway(self.total)
+        return io.StringIO.write(self, text)
+
+
+def check_error_paths(ctx, timings, quick):
+    """operations that FAIL on heavily shared DAGs: the rejection of an ill-typed node built over a diamond chain is
+    part of the work: one type-checker callback, an error message of bounded length (not the tree expansion)"""
+    for k in ([16] if quick else [10, 18]):      # the tree is 2^k: a rejection that walks it still terminates
+        env = Environment()
+        push_env(env)
+        try:
+            m = env.formula_manager
+            fb = build_family(env, "diamond", "bool", k)
+            fi = build_family(env, "diamond", "int", k)
+            fv = build_family(env, "diamond", "bv", k)
+            fa = build_family(env, "diamond", "store", min(k, 30))
+            tb, ti, tv, ta = fb.term, fi.term, fv.term, fa.term
+            r = m.Symbol("r", types.REAL)
+            bads = [
+                ("equals-bool", lambda: m.Equals(tb, m.Not(tb))),
+                ("equals-int-bool", lambda: m.Equals(ti, tb)),
+                ("plus-int-real", lambda: m.Plus(ti, r)),
+                ("and-int", lambda: m.And(tb, ti)),
+                ("le-bool", lambda: m.LE(tb, ti)),
+                ("ite-cond-int", lambda: m.Ite(ti, tb, tb)),
+                ("ite-branches", lambda: m.Ite(tb, ti, tv)),
+                ("bvadd-width", lambda: m.BVAdd(tv, m.BV(1, 4))),
+                ("bvult-int", lambda: m.BVULT(tv, ti)),
+                ("store-index", lambda: m.Store(ta, tb, ti)),
+                ("select-index", lambda: m.Select(ta, tv)),
+                ("function-arg", lambda: m.Function(m.Symbol("fn", types.FunctionType(types.INT, [types.INT])), [tb])),
+                ("substitute-ill-typed", lambda: fi.phi.substitute({fi.leaf: r})),
+                ("get_type-direct", lambda: env.stc.get_type(m.create_node(node_type=op.AND, args=(ti, tb))))
+                if False else ("times-bool", lambda: m.Times(ti, tb)),
+            ]
+            for name, th in bads:
+                tap = Tap(env.stc, max_calls=20000)
+                t0 = time.time()
+                exc = None
+                try:
+                    th()
+                except BaseException as e:      # noqa
+                    if isinstance(e, (KeyboardInterrupt, SystemExit)):
+                        raise
+                    exc = e
+                dt = time.time() - t0
+                tap.restore()
+                timings.setdefault("reject:" + name, []).append(("diamond", name, k, round(dt, 3)))
+                ctx.count("op:reject")
+                ctx.case(("reject", name, k))
+                sig = {"family": "diamond/ill-typed", "op": "reject:" + name}
+                replay = {"family": {"shape": "reject", "kind": name, "k": k}, "op": "reject"}
+                if exc is None:
+                    ctx.report_k("the ill-typed construction %s (k=%d) was accepted" % (name, k), replay)
+                    continue
+                if isinstance(exc, RecursionError):
+                    ctx.report_s(dict(sig, oracle="recursion"), "RecursionError while rejecting %s" % name, replay)
+                    continue
+                msg_len = len(str(exc))
+                ctx.extra["max_error_message_chars"] = max(ctx.extra.get("max_error_message_chars", 0), msg_len)
+                if msg_len > 20000 or isinstance(exc, Runaway):
+                    ctx.report_s(dict(sig, oracle="output-size"),
+                                 "rejecting the ill-typed %s over a diamond chain (k=%d): error message of %d "
+                                 "characters" % (name, k, msg_len), replay)
+                if len(tap.trace) > 60:
+                    ctx.report_s(dict(sig, oracle="visit-count"),
+                                 "rejecting %s (k=%d): %d type-checker callbacks" % (name, k, len(tap.trace)), replay)
+        finally:
+            pop_env()
+
+
+def check_big_arguments(ctx, timings):
+    """constructors with an integer 'size' argument or thousands of arguments, and the parser on the corresponding
+    text, under the default recursion limit"""
+    env = Environment()
+    push_env(env)
+    try:
+        m = env.formula_manager
+        BV8 = types.BVType(8)
+        v = m.Symbol("v", BV8)
+        n = 3000
+        ps = [m.Symbol("p%d" % i) for i in range(n)]
+        xs = [m.Symbol("x%d" % i, types.INT) for i in range(n)]
+        decl = "(declare-fun v () (_ BitVec 8))" + "".join("(declare-fun p%d () Bool)" % i for i in range(n)) + \
+               "".join("(declare-fun x%d () Int)" % i for i in range(n))
+
+        def parse(t):
+            return SmtLibParser(env).get_script(io.StringIO(decl + t)).get_last_formula()
+        wide = m.BVZExt(v, 5000)
+        cases = [
+            ("BVRepeat", lambda: m.BVRepeat(v, n)), ("BVZExt", lambda: m.BVZExt(v, 5000)),
+            ("BVSExt", lambda: m.BVSExt(v, 5000)), ("BVRol", lambda: m.BVRol(wide, 4999)),
+            ("BVRor", lambda: m.BVRor(wide, 4999)), ("BVExtract", lambda: m.BVExtract(wide, 0, 4000)),
+            ("And", lambda: m.And(ps)), ("Or", lambda: m.Or(ps)), ("Plus", lambda: m.Plus(xs)),
+            ("Times", lambda: m.Times(xs)), ("BVConcat", lambda: m.BVConcat([v] * n)),
+            ("AllDifferent", lambda: m.AllDifferent(xs[:100])), ("ExactlyOne", lambda: m.ExactlyOne(ps[:300])),
+            ("AtMostOne", lambda: m.AtMostOne(ps[:300])), ("Min", lambda: m.Min(xs)), ("Max", lambda: m.Max(xs)),
+            ("BV-wide-constant", lambda: m.BV(2 ** n - 1, n)), ("FNode.BVRepeat", lambda: v.BVRepeat(n)),
+            ("parse-repeat", lambda: parse("(assert (= ((_ repeat %d) v) ((_ repeat %d) v)))" % (n, n))),
+            ("parse-zero_extend", lambda: parse("(assert (= ((_ zero_extend 5000) v) ((_ zero_extend 5000) v)))")),
+            ("parse-sign_extend", lambda: parse("(assert (= ((_ sign_extend 5000) v) ((_ sign_extend 5000) v)))")),
+            ("parse-and", lambda: parse("(assert (and %s))" % " ".join("p%d" % i for i in range(n)))),
+            ("parse-plus", lambda: parse("(assert (> (+ %s) 0))" % " ".join("x%d" % i for i in range(n)))),
+            ("parse-distinct", lambda: parse("(assert (distinct %s))" % " ".join("x%d" % i for i in range(200)))),
+            ("simplify-And", lambda: m.And(ps).simplify()), ("to_smtlib-Min", lambda: m.LE(m.Min(xs), xs[0]).to_smtlib()),
+            ("simplify-BVRepeat", lambda: m.BVRepeat(v, n).simplify()),
+        ]
+        for name, th in cases:
+            t0 = time.time()
+            exc = None
+            try:
+                th()
+            except BaseException as e:      # noqa
+                if isinstance(e, (KeyboardInterrupt, SystemExit)):
+                    raise
+                exc = e
+            timings.setdefault("big:" + name, []).append(("big", name, n, round(time.time() - t0, 3)))
+            ctx.count("op:big-argument")
+            ctx.case(("big", name))
+            replay = {"family": {"shape": "big-argument", "kind": name, "k": n}, "op": "big"}
+            if isinstance(exc, RecursionError):
+                ctx.report_s({"family": "big-argument", "op": name, "oracle": "recursion"},
+                             "RecursionError in %s with a size argument / argument count of %d" % (name, n), replay)
+            elif exc is not None:
+                ctx.report_k("%s with large arguments raised %r" % (name, exc), replay)
+    finally:
+        pop_env()
 
 
 def check_let_towers(ctx, timings):
@@ -1382,6 +1546,8 @@ def run(ctx):
     if ctx.time_left() > 30:
         check_let_towers(ctx, timings)
         check_partitions(ctx, timings, ctx.tier == "quick")
+        check_error_paths(ctx, timings, ctx.tier == "quick")
+        check_big_arguments(ctx, timings)
     # ---------- random DAGs, all operations + generic walker with fault injection
     n_random = 25 if ctx.tier == "quick" else 300
     generic = []
@@ -1470,6 +1636,12 @@ def replay(ctx, rep):
         return
     if fp.get("shape") == "skeleton":
         check_partitions(ctx, timings, False)
+        return
+    if fp.get("shape") == "reject":
+        check_error_paths(ctx, timings, False)
+        return
+    if fp.get("shape") == "big-argument":
+        check_big_arguments(ctx, timings)
         return
     if fp.get("shape") == "random":
         ctx.report_k("random-DAG cases are regenerated from the seed: VERIF_SEED=%s ./check C20" % rep.get("seed"), r)
